@@ -30,6 +30,19 @@ def cfg_sessions(sim):
     return out
 
 
+_HFT_CLASSES = ("ScriptedHFAgent", "ArbitrageAgent", "MarketMakerAgent", "HighFrequencyAgent")
+
+
+def cfg_agents(sim):
+    """[(agent id, is high-frequency)] as the configuration calls for them (groups in listing order, ids counted up)"""
+    out = []
+    for name in sim._vf_cfg["simulation"]["agents"]:
+        blk = sim._vf_cfg[name]
+        for _ in range(blk.get("numAgents", 1)):
+            out.append((len(out), blk["class"] in _HFT_CLASSES))
+    return out
+
+
 def cfg_total_steps(sim):
     return sum(n for _, n, _ in cfg_sessions(sim))
 
@@ -99,6 +112,14 @@ def acc_C05(w):
 
     for e in w.ev:
         if e[0] == "round":
+            # the fills a round reports are the volume that left the book in that round (nothing repeated, nothing kept back)
+            rep = PyCounter()
+            for l in e[2]:
+                rep[(True, l.buy_order_id)] += l.volume
+                rep[(False, l.sell_order_id)] += l.volume
+            V(dict(rep) == dict(e[4]["delta"]), "C05.reported_fills",
+              "the fills a matching round hands to the runner for settlement are not the volume that left the book in that round",
+              "reported per order %s, volume lost per order %s" % (dict(rep), dict(e[4]["delta"])))
             for l in e[2]:
                 b, s = exp[l.buy_agent_id], exp[l.sell_agent_id]
                 b[0] -= l.price * l.volume
@@ -135,8 +156,8 @@ def acc_C05(w):
 def acc_C09(w):
     sim = w.runner.simulator
     cfg_sessions = w.scn.cfg["simulation"]["sessions"]
-    normal = [a.agent_id for a in sim.agents if not isinstance(a, HighFrequencyAgent)]
-    hft = [a.agent_id for a in sim.agents if isinstance(a, HighFrequencyAgent)]
+    normal = [aid for aid, h in cfg_agents(sim) if not h]
+    hft = [aid for aid, h in cfg_agents(sim) if h]
     pre, steps = split_steps(w)
     per_step = []
     for s in cfg_sessions:
@@ -459,6 +480,15 @@ def acc_C10(w):
             "a record is delivered twice" if dup else "missing, extra or reordered record"),
             "position %d: expected %s, received %s; %d events / %d records" % (
                 i, names.get(kind_t), names.get(kind_g, kind_g), len(truth), len(got)))
+    if w.scn.meta.get("logger") == "layered":
+        # a logger whose handlers are spread over two class levels: every processed record reaches its handler exactly once
+        handled = [e[1] for e in w.ev if e[0] == "lh"]
+        allp = [e[1] for e in w.ev if e[0] == "lp"]
+        V([id(x) for x in handled] == [id(x) for x in allp], "C10.handlers",
+          "a processed record did not reach the logger's handler for its type exactly once (handlers defined on a parent class of the logger)",
+          "processed %d records, handlers received %d; first record type without its handler call: %s" % (
+              len(allp), len(handled), next((type(x).__name__ for x, y in zip(allp, handled + [None] * len(allp)) if x is not y), "?")))
+        w.wit.inc("layered_logger_runs")
     V([id(x) for x in processed] == [id(x) for x in written], "C10.processed",
       "records are not processed exactly once in the order they were written",
       "written=%d processed=%d" % (len(written), len(processed)))
@@ -522,8 +552,8 @@ def acc_C10(w):
 
 def acc_C11(w):
     sim = w.runner.simulator
-    exp = {a.agent_id: PyCounter() for a in sim.agents}
-    got = {a.agent_id: PyCounter() for a in sim.agents}
+    exp = {aid: PyCounter() for aid, _ in cfg_agents(sim)}
+    got = {aid: PyCounter() for aid, _ in cfg_agents(sim)}
     happened = set()
     hold = {k: [v[0], dict(v[1])] for k, v in w.endow.items()}
     for e in w.ev:
@@ -631,10 +661,13 @@ def acc_C13(w):
             for m in sim.markets:
                 occ += [("market", True, t, m.market_id), ("market", False, t, m.market_id)]
     exp = PyCounter()
-    for ev in sim.events:
-        specs = list(cfg[ev.name]["hooks"]) if ev.name in cfg and "hooks" in cfg[ev.name] else []
+    # the event instances the CONFIGURATION calls for (one per listing of an event name under a session, numbered in
+    # that order), not the ones the simulator says it has
+    listed = [nm for s_ in cfg["simulation"]["sessions"] for nm in s_.get("events", [])]
+    for event_id, ev_name in enumerate(listed):
+        specs = list(cfg[ev_name]["hooks"]) if ev_name in cfg and "hooks" in cfg[ev_name] else []
         # specifications registered while the run was going on (their time lists name later steps only)
-        late = [e[2] for e in w.ev if e[0] == "late_registered" and e[1] == ev.event_id]
+        late = [e[2] for e in w.ev if e[0] == "late_registered" and e[1] == event_id]
         if late:
             # only judged when every step they name lies after the step in which they were registered (otherwise some
             # of the named occasions had already passed at that moment)
@@ -651,7 +684,7 @@ def acc_C13(w):
                     continue
                 if ty == "market" and not _filter_ok(flt, sim.id2market[o[3]], sim):
                     continue
-                exp[(ev.event_id, o[0], o[1], o[2], o[3])] += 1
+                exp[(event_id, o[0], o[1], o[2], o[3])] += 1
             if tm is None:
                 w.wit.inc("spec_time_none")
             elif not tm:
